@@ -249,6 +249,9 @@ pub struct ConnScript {
     /// unreliable datagrams handed to the connection (both endpoints need `datagram` enabled)
     #[serde(default)]
     pub datagrams: Vec<DgramStep>,
+    /// the server application closes the connection with this code that many microseconds after accepting it
+    #[serde(default)]
+    pub server_close: Option<(u32, u32)>,
 }
 
 /// `side` hands a datagram of `len` bytes to its connection `at_us` after the connection was established there
